@@ -66,6 +66,13 @@ pub struct Ctx {
     pub sample_every: u64,
     /// breadcrumb file: the case being executed, rewritten before every case
     pub crumb: Option<std::fs::File>,
+    /// run a seeded stratified sample of the case space instead of enumerating it (slow tools)
+    pub sampled: bool,
+    /// interpreter mode (Miri): the tool is the monitor, harness-side byte scans and redundant views are skipped
+    pub lean: bool,
+    /// tool modes: stratified sampling, at most `quota` cases per (family, backend, operation signature)
+    pub quota: u64,
+    pub strata: std::collections::HashMap<String, u64>,
 }
 
 impl Ctx {
@@ -99,6 +106,34 @@ impl Ctx {
             self.breadcrumb(&cfg.name, o);
         }
         mine
+    }
+    /// Like `take`, but in tool modes accepts only a stratified sample: every (family, backend,
+    /// operation signature) stratum is owned by one shard and filled up to `quota` cases.
+    pub fn take_sig(&mut self, cfg: &CfgEntry, sig: &str) -> bool {
+        if !self.sampled || self.only.is_some() {
+            return self.take(cfg);
+        }
+        let o = self.ordinal;
+        self.ordinal += 1;
+        if self.viols.len() >= self.max_viols {
+            return false;
+        }
+        let key = format!("{}|{:?}|{}", self.family, cfg.mem, sig);
+        let h = fnv(&key);
+        if (h % self.nshards as u64) as usize != self.shard {
+            return false;
+        }
+        // vary the chosen instance with the seed, rotate over configurations
+        if crate::util::mix64(h ^ o ^ self.seed.wrapping_mul(0x9E37)) % 5 != 0 {
+            return false;
+        }
+        let c = self.strata.entry(key).or_insert(0);
+        if *c >= self.quota {
+            return false;
+        }
+        *c += 1;
+        self.breadcrumb(&cfg.name, o);
+        true
     }
     pub fn breadcrumb(&mut self, cfg: &str, ordinal: u64) {
         if let Some(f) = &self.crumb {
@@ -386,7 +421,8 @@ impl<'a> Case<'a> {
         ctx.stats.steps += 1;
         let sig = opsig(op);
         let _ = reg::take_clone_log();
-        let before: Vec<Snap> = (0..NVECS).map(|v| self.rig.snap(v)).collect();
+        let cap_op = matches!(op, Op::Reserve { .. } | Op::ShrinkToFit { .. } | Op::ShrinkTo { .. } | Op::RawRoundTrip { .. });
+        let before: Vec<Snap> = if ctx.lean && !cap_op { Vec::new() } else { (0..NVECS).map(|v| self.rig.snap(v)).collect() };
         let exp = self.model.apply(op);
         let gm0 = guardmem::counters();
         let ma0 = monalloc::stats();
@@ -597,8 +633,9 @@ impl<'a> Case<'a> {
     pub fn post_check(&mut self, ctx: &mut Ctx, sig: &str, desc: &str, resync: &[usize], before: Option<&[Snap]>) {
         let cfgname = self.cfg.name.clone();
         let mut visible: HashMap<Id, i64> = HashMap::new();
+        let snaps: Vec<Snap> = (0..NVECS).map(|v| self.rig.snap(v)).collect();
         for v in 0..NVECS {
-            let s = self.rig.snap(v);
+            let s = snaps[v].clone();
             if !s.typeid_ok || !s.layout_ok {
                 self.failed = true;
                 ctx.report(&cfgname, "meta", sig, format!("v{v}: element_typeid/element_layout do not describe the element type"), desc);
@@ -651,7 +688,7 @@ impl<'a> Case<'a> {
                 }
             }
             // erased views agree with the typed snapshot
-            if !garbage {
+            if !garbage && !ctx.lean {
                 let (gets, its) = self.rig.erased_views(v);
                 let mut want_gets = s.vals.clone();
                 want_gets.push(Val::None);
@@ -672,7 +709,6 @@ impl<'a> Case<'a> {
             }
         }
         // separately owned storage
-        let snaps: Vec<Snap> = (0..NVECS).map(|v| self.rig.snap(v)).collect();
         for i in 0..NVECS {
             for j in i + 1..NVECS {
                 if snaps[i].cap > 0 && snaps[j].cap > 0 && self.cfg.elem.size > 0 && snaps[i].base == snaps[j].base {
@@ -743,7 +779,7 @@ impl<'a> Case<'a> {
 
     pub fn drain_monitors(&mut self, ctx: &mut Ctx, sig: &str, desc: &str) {
         let cfgname = self.cfg.name.clone();
-        if self.cfg.mem == MemKind::Guard {
+        if self.cfg.mem == MemKind::Guard && !ctx.lean {
             guardmem::scan();
         }
         if self.cfg.mem == MemKind::Heap && !ctx.tool_mode {
